@@ -7,7 +7,7 @@
    parser vs `parse` evaluated in Coq on the real lexer's tokens). *)
 From Coq Require Import List ZArith Bool Arith.
 From YV Require Import Common.Corr Model.OpTable Model.Pratt Gen.OpTables.
-From YV Require Import Lemmas.PrattYield Lemmas.PrattWf Lemmas.PrattUnique Lemmas.OpTableInsert.
+From YV Require Import Lemmas.PrattYield Lemmas.PrattWf Lemmas.PrattShape Lemmas.PrattUnique Lemmas.PrattUniqueFull Lemmas.OpTableInsert.
 Import ListNotations.
 Open Scope Z_scope.
 
@@ -68,29 +68,30 @@ Proof. exact parse_yield. Qed.
 Theorem C02_precedence_correct : forall T ts t, parse T ts = Some t -> wf T t.
 Proof. exact parse_wf. Qed.
 
-(* ... and it is the only such tree: a tree that obeys the table is what the parser
-   returns for its own text.  Proved for the core fragment (atoms, prefix and
-   binary operators, parentheses). *)
-Theorem C02_unique_core : forall T t, core t -> wf T t -> parse T (yield t) = Some t.
-Proof. exact parse_unique_core. Qed.
+(* every argument list of the tree follows the args grammar of parser.py ([shaped]) *)
+Theorem C02_args_shape : forall T ts t, parse T ts = Some t -> shaped t.
+Proof. exact parse_shaped. Qed.
 
-(* two trees of the core fragment with the same text that both obey the table are equal *)
-Theorem C02_unique_core_trees : forall T t1 t2,
-  core t1 -> core t2 -> wf T t1 -> wf T t2 -> yield t1 = yield t2 -> t1 = t2.
+(* ... and it is the only such tree: a tree that obeys the table (and whose argument
+   lists follow the args grammar) is what the parser returns for its own text - for ALL
+   trees: atoms, prefix, suffix and binary operators, parentheses, indexers, lists, maps,
+   function and method calls with empty slots and named arguments *)
+Theorem C02_unique : forall T t, wf T t -> shaped t -> parse T (yield t) = Some t.
+Proof. exact parse_unique. Qed.
+
+(* hence: the parser's tree is THE precedence-correct tree of the text *)
+Theorem C02_unique_tree : forall T ts t t',
+  parse T ts = Some t -> wf T t' -> shaped t' -> yield t' = ts -> t' = t.
 Proof.
-  exact (fun T t1 t2 c1 c2 w1 w2 e =>
-    f_equal (fun o => match o with Some t => t | None => t1 end)
-      (eq_trans (eq_sym (parse_unique_core T t1 c1 w1))
-         (eq_trans (f_equal (parse T) e) (parse_unique_core T t2 c2 w2)))).
+  exact (fun T ts t t' H W S Y =>
+    f_equal (fun o => match o with Some x => x | None => t' end)
+      (eq_trans (eq_sym (parse_unique T t' W S)) (eq_trans (f_equal (parse T) Y) H))).
 Qed.
 
-(* FULL STATEMENT, NOT PROVED (kept visible): C02_unique for all trees,
-     forall T t, wf T t -> args_shape t -> parse T (yield t) = Some t
-   where args_shape says that every argument list follows the args grammar.  Missing: the
-   cases Suf, Index, ListE, MapE, Call of Lemmas/PrattUnique.expr_of_yield (the same
-   invariant, one more case each) and the corresponding statement for `slots`/`named`.
-   The correspondence check and the brute-force oracle of harness/props/c02.py test
-   exactly this statement on suffix/index/call/list/map texts. *)
+(* the core fragment (atoms, prefix, binary, parentheses) has no argument lists, so
+   [shaped] is not needed there (first delivery, kept) *)
+Theorem C02_unique_core : forall T t, core t -> wf T t -> parse T (yield t) = Some t.
+Proof. exact parse_unique_core. Qed.
 
 (* insert_operator, read on the groups of the list (group k from 0 gets level k+1):
    with an anchor, the groups before the first group holding the anchor and that group
@@ -215,3 +216,22 @@ Qed.
 Example ex_legacy_insert :
   insert_operator Spec.standard (Some Spec.or_) true (Op Spec.fat KLeft None) true = Some Spec.legacy_ops.
 Proof. vm_compute. reflexivity. Qed.
+
+(* why C02_insert_no_empty_group asks for [has_role new]: a NAME_VALUE_PAIR operator gives its
+   group no precedence level; inserted with create_group it leaves a level unused and the
+   range loop of parser.py then never reaches the loosest level (outside the property's
+   quantifier: such a group is not homogeneous) *)
+Example ex_namevalue_group_is_empty :
+  exists ops',
+    insert_operator Spec.legacy_ops (Some Spec.or_) true (Op [58; 61] KNameValue None) true = Some ops' /\
+    ~ groups_ok ops' /\
+    option_map all_levels_visited (build_table ops') = Some false.
+Proof.
+  eexists. split; [vm_compute; reflexivity|]. split; [|vm_compute; reflexivity].
+  intro H. unfold groups_ok in H. rewrite Forall_forall in H.
+  specialize (H [Op [58; 61] KNameValue None]).
+  assert (I : In [Op [58; 61] KNameValue None]
+                (groups (firstn 32 Spec.standard ++ [Sep; Op [58; 61] KNameValue None; Sep; Op Spec.fat KLeft None] ++ skipn 32 Spec.standard))).
+  { vm_compute. repeat (try (left; reflexivity); right). }
+  apply H in I. vm_compute in I. discriminate.
+Qed.
